@@ -371,59 +371,53 @@ def r4_order_edges(ctx) -> None:
     ctx.check(ok, R, "DfBase.add_state_order", f_[1].path, f_[0].lineno, "", f_[0])
     # Block: the only link without an order edge is the dominator-edge fallback
     need(ctx, R, "hugr.build.cfg.Block._wire_up_port", "Block._wire_up_port: ordinary wiring first", ["super()._wire_up_port(L_node, L_offset, L_p)"])
-    # _ancestral_sibling returns the ancestor of tgt whose parent is src's parent
-    fn, m, _ = ctx.locate("hugr.build.dfg._ancestral_sibling")
-    cf = ctx.cfn("hugr.build.dfg._ancestral_sibling")
-    loops = [n for n in ast.walk(cf) if isinstance(n, ast.While)]
-    ok = len(loops) == 1
-    if ok:
-        lp = loops[0]
-        lps = summaries(lp.body)
-        env = tmatch(lp.test, T("(L_tp := L_h[L_tgt].parent) is not None"))
-        ok = env is not None
-        if ok:
-            tp, h, tgt = env["L_tp"], env["L_h"], env["L_tgt"]
-            src = [a.arg for a in fn.args.args if a.arg not in (h, tgt)]
-            ok = len(src) == 1
-        if ok:
-            same = f"{tp} == {h}[{src[0]}].parent"
-            found = [p for p in lps if p.kind == "return" and p.value_text() == tgt]
-            ok = bool(found) and all(any(u(t) in (same, f"{h}[{src[0]}].parent == {tp}") and k for t, k in p.tests) for p in found)
-            climb = [p for p in lps if p.kind in ("fall", "continue")]
-            ok = ok and bool(climb) and all(p.env.get(tgt) is not None and u(p.env[tgt]) == tp for p in climb)
+    # _ancestral_sibling returns the ancestor of tgt whose parent is src's parent (search loop in normal form, hv/genloop.py)
+    fn, m, sl, (h, src, tgt) = _sibling_search(ctx)
+    par = f"{h}[s0].parent"
+    same = (f"{par} == {h}[{src}].parent", f"{h}[{src}].parent == {par}")
+    found = [it for it in sl.iters if it.kind == "return" and it.value is not None and u(it.value) == "s0"]
+    ok = list(sl.state) == ["s0"] and u(sl.state["s0"]) == tgt and bool(found) and all(any(it.test(t) is True for t in same) for it in found)
+    climb = [it for it in sl.iters if it.kind == "next"]
+    ok = ok and bool(climb) and all({k: u(v) for k, v in it.update.items()} == {"s0": par} for it in climb)
+    # nothing but the target's ancestors is ever answered
+    ok = ok and all(it.kind != "return" or u(it.value) in ("s0", "None") for it in sl.iters)
     ctx.check(ok, R, "_ancestral_sibling: climbs from the target until the parent is the source's parent", m.path, fn.lineno,
-              "the walk returns the ancestor of the target whose parent is the source's parent, climbing one parent per iteration", fn)
+              "the walk returns the ancestor of the target whose parent is the source's parent, climbing one parent per iteration", fn,
+              found="; ".join(it.describe() for it in sl.iters)[:400])
+
+
+def _sibling_search(ctx):
+    from ..genloop import NotASearchLoop, search_loop
+    q = "hugr.build.dfg._ancestral_sibling"
+    fn, m, _ = ctx.locate(q)
+    a = [x.arg for x in fn.args.args]
+    if len(a) != 3:
+        ctx.broken("_ancestral_sibling: expected (h, src, tgt)")
+    try:
+        sl = search_loop(ctx.cfn(q, subst=False).body)
+    except NotASearchLoop as e:
+        ctx.broken(f"_ancestral_sibling: not a single search loop ({e})")
+    return fn, m, sl, a
 
 
 def r6_function_boundary(ctx, rule="C01.R6") -> None:
-    q = "hugr.build.dfg._ancestral_sibling"
-    fn, m, _ = ctx.locate(q)
-    cf = ctx.cfn(q)
-    loops = [n for n in ast.walk(cf) if isinstance(n, ast.While)]
-    if len(loops) != 1:
-        ctx.broken("_ancestral_sibling: climbing loop not found")
-    lp = loops[0]
-    env = tmatch(lp.test, T("(L_tp := L_h[L_tgt].parent) is not None"))
-    if env is None:
-        ctx.broken("_ancestral_sibling: loop header `(parent := h[tgt].parent) is not None` not found")
-    tp, h, tgt = env["L_tp"], env["L_h"], env["L_tgt"]
-    lps = summaries(lp.body)
+    fn, m, sl, (h, src, tgt) = _sibling_search(ctx)
+    par = f"{h}[s0].parent"
 
-    def func_test(p):
-        for t, k in p.tests:
-            e = tmatch(t, T(f"isinstance({h}[{tp}].op, E_cls)"))
-            if e is not None and "FuncDefn" in e["E_cls"]:
+    def func_test(it):
+        for e, k in it.tests_matching(f"isinstance({h}[{par}].op, E_cls)"):
+            if "FuncDefn" in e["E_cls"]:
                 return k
         return None
-    climb = [p for p in lps if p.kind in ("fall", "continue") and p.env.get(tgt) is not None and u(p.env[tgt]) == tp]
-    found = [p for p in lps if p.kind == "return" and p.value_text() == tgt]
-    stop = [p for p in lps if p.kind == "return" and p.value_text() == "None" and func_test(p) is True]
-    ok = bool(climb) and all(func_test(p) is False for p in climb) and bool(stop) and bool(found) and all(func_test(p) is None for p in found)
-    ctx.check(ok, rule, "_ancestral_sibling: the search does not leave a function definition", m.path, lp.lineno,
+    climb = [it for it in sl.iters if it.kind == "next"]
+    found = [it for it in sl.iters if it.kind == "return" and u(it.value) == "s0"]
+    stop = [it for it in sl.iters if it.kind == "return" and u(it.value) == "None" and func_test(it) is True]
+    ok = bool(climb) and all(func_test(it) is False for it in climb) and bool(stop) and bool(found) and all(func_test(it) is None for it in found)
+    ctx.check(ok, rule, "_ancestral_sibling: the search does not leave a function definition", m.path, sl.loop.lineno if hasattr(sl.loop, "lineno") else fn.lineno,
               "the ancestor walk climbs through a FuncDefn: a value wire from outside a function into its body is accepted and an order edge is added "
               "to the function node, but the validator forbids value edges into a function body (ValueEdgeIntoFunc). The walk must stop "
               "(return None -> NoSiblingAncestor) when the parent it would climb past is a FuncDefn, and only after the sibling test", fn,
-              detail="sibling test, then function-boundary test, then climb", found="; ".join(p.describe() for p in lps)[:300])
+              detail="sibling test, then function-boundary test, then climb", found="; ".join(it.describe() for it in sl.iters)[:400])
 
 
 def run(ctx) -> None:
